@@ -215,12 +215,16 @@ def _c10_jobs(tier):
         jobs.append(("c10_udict", ["--min", mn, "--extra", ex, "--pool", pool, "--keys", 20, "--depth", 3 if q else 4, "--deadline", dl]))
         jobs.append(("c10_udict", ["--min", mn, "--extra", ex, "--pool", pool, "--keys", 6, "--depth", 5 if q else 7, "--deadline", dl]))
     jobs.append(("c10_udict", ["--min", 1, "--extra", 1, "--pool", 0, "--keys", 6, "--big", 1, "--depth", 3 if q else 4, "--deadline", dl]))
+    # environment deviation: one (thorough: two) refused memory request(s) anywhere in the history
+    for (mn, ex, pool) in ((1, 1, 0), (8, 4, 2)):
+        jobs.append(("c10_udict", ["--min", mn, "--extra", ex, "--pool", pool, "--keys", 6, "--faults", 1 if q else 2, "--depth", 5 if q else 6, "--deadline", dl]))
+        jobs.append(("c10_udict", ["--min", mn, "--extra", ex, "--pool", pool, "--keys", 10, "--faults", 1, "--depth", 4 if q else 5, "--deadline", dl]))
     return jobs
 
 CHECKS["C10"] = {
     "engine": "seqx", "design_ref": "DESIGN.md section 3 C10",
     "technique": "explicit-state BFS over set/delete/dup/copy/import/aliasing-set sequences on two real udict_inline dictionaries vs an ordered-map model",
-    "level_text": "All operation sequences up to the stated depth over keys chosen to collide (same name/other type, prefixes, shorthand vs named, every attribute type) and boundary values (sizes 0/1/5/40/65000, 64-bit extremes), on 3 manager configurations that force storage growth; after every transition all keys are looked up with the typed getters in both dictionaries, iteration must visit each present attribute exactly once, udict_cmp must agree with the models, and the counting allocator must see no overrun. Bounded, not a proof.",
+    "level_text": "All operation sequences up to the stated depth over keys chosen to collide (same name/other type, prefixes, shorthand vs named, every attribute type) and boundary values (sizes 0/1/5/40/65000, 64-bit extremes), on 3 manager configurations that force storage growth; after every transition all keys are looked up with the typed getters in both dictionaries, iteration must visit each present attribute exactly once, udict_cmp must agree with the models, and the counting allocator must see no overrun. With --faults: additionally, once (twice in thorough) per history, 'the k-th next memory request is refused' (k=1,2) is armed; a refused set / dup / copy / import must fail cleanly: every other attribute untouched, the attribute being set either keeps its old value or (old value removed first) is absent, later operations behave, nothing leaks. Bounded, not a proof.",
     "level_note": "Trusted: the map model and value generators. Outside: sequences beyond the depth, names other than a/ab/abc/b, values other than the boundary sets, INT64_MIN (documented assert).",
     "jobs": {"quick": _c10_jobs("quick"), "thorough": _c10_jobs("thorough")},
     "rule": "BFS, key = iteration order of both dictionaries with values (TLV order is hidden state) + allocation sizes; non-trivial = states with >= 2 attributes or a second dictionary",
